@@ -365,4 +365,59 @@ theorem fold_weighted {α : Type} (f : Content κ → α → Option (Content κ)
     (hh : h.weighted = b) (e : l.foldlM f h = some r) : r.weighted = b :=
   foldlM_inv f (fun c => c.weighted = b) (fun x a x' hx hb => (hf x a x' hx).trans hb) l h r hh e
 
+/-! ## incidence metadata, empty edges and hypergraph-level metadata of any successful extraction: those of the
+freshly constructed object (the building steps never touch them; no hypothesis on the source) -/
+
+/-- the part of the content no building step of an extraction touches -/
+def aux (c : Content κ) : List (IncKey × Meta) × List (Nat × Meta) × Meta := (c.inc, c.emptyEdges, c.hmeta)
+
+theorem addEdge_aux (h h' : Content κ) (k : κ) (w : Option W) (md : Meta) (e : addEdge h k w md = some h') :
+    aux h' = aux h := by
+  unfold addEdge at e
+  split at e
+  · cases e
+    unfold addEdgeCore
+    split <;> rfl
+  · cases e
+
+theorem reinsert_aux (src h h' : Content κ) (k : κ) (e : reinsert src h k = some h') : aux h' = aux h := by
+  simp only [reinsert, Option.bind_eq_bind] at e
+  cases h1 : getWeight src k with
+  | none => simp [h1] at e
+  | some w =>
+    cases h2 : getEdgeMeta src k with
+    | none => simp [h1, h2] at e
+    | some md => simp only [h1, h2, Option.bind_some] at e; exact addEdge_aux _ _ _ _ _ e
+
+theorem reinsertBare_aux (src h h' : Content κ) (k : κ) (e : reinsertBare src h k = some h') : aux h' = aux h := by
+  simp only [reinsertBare, Option.bind_eq_bind] at e
+  cases h1 : getWeight src k with
+  | none => simp [h1] at e
+  | some w => simp only [h1, Option.bind_some] at e; exact addEdge_aux _ _ _ _ _ e
+
+theorem copyNodeMeta_aux (src h h' : Content κ) (n : Node) (e : copyNodeMeta src h n = some h') : aux h' = aux h := by
+  simp only [copyNodeMeta, Option.bind_eq_bind] at e
+  cases h1 : getNodeMeta src n with
+  | none => simp [h1] at e
+  | some md =>
+    simp only [h1, Option.bind_some, setNodeMeta] at e
+    split at e
+    · cases e; rfl
+    · cases e
+
+theorem copyEdgeMeta_aux (src h h' : Content κ) (k : κ) (e : copyEdgeMeta src h k = some h') : aux h' = aux h := by
+  simp only [copyEdgeMeta, Option.bind_eq_bind] at e
+  cases h1 : getEdgeMeta src k with
+  | none => simp [h1] at e
+  | some md =>
+    simp only [h1, Option.bind_some, setEdgeMeta] at e
+    split at e
+    · cases e
+    · cases e; rfl
+
+theorem fold_aux {α : Type} (f : Content κ → α → Option (Content κ)) (b : List (IncKey × Meta) × List (Nat × Meta) × Meta)
+    (hf : ∀ h a h', f h a = some h' → aux h' = aux h) (l : List α) (h r : Content κ)
+    (hh : aux h = b) (e : l.foldlM f h = some r) : aux r = b :=
+  foldlM_inv f (fun c => aux c = b) (fun x a x' hx hb => (hf x a x' hx).trans hb) l h r hh e
+
 end C05
